@@ -228,7 +228,14 @@ func TestIssuer(t *testing.T) {
 		// unregistered origins: honest client, names that are not registered
 		for i := 0; i < 3; i++ {
 			var o string
-			switch gen.Uniform(t, 6, "unreg") {
+			switch gen.Uniform(t, 9, "unreg") {
+			case 6, 7, 8:
+				// what a normalising / prefix- or suffix-matching lookup would confuse with the registered name
+				if la := gen.LookAlikes(sess.Origin); len(la) > 0 {
+					o = gen.Pick(t, la, "lookAlike")
+				} else {
+					o = sess.Origin + "y"
+				}
 			case 0:
 				o = gen.OriginName().Draw(t, "fresh")
 			case 1:
